@@ -357,6 +357,13 @@ class Gen(object):
                 attrs.append(self.tattr(nm))
             it.update(max=self.ch([None, None, 0, 1, 2, 5, -1, -2]), offset=self.ch([None, None, 0, 1, 2, 7, -1, -3]),
                       attrs=attrs)
+            if self.profile.get("locate_extras") and self.p(self.profile["locate_extras"]):
+                # optional fields of the Locate request the server does not act on: Storage Status Mask (on-line /
+                # archival / destroyed storage) and Object Group Member
+                if self.p(0.6):
+                    it["ssm"] = self.ch([1, 2, 3, 4, 7, 0])
+                if self.p(0.5):
+                    it["ogm"] = self.ch([1, 2])
         elif op == "get":
             w = None
             if self.p(0.25):
@@ -466,6 +473,13 @@ class Gen(object):
             items[k]["bid"] = items[self.r.randrange(0, k)]["bid"]
         req = {"version": v if self.p(0.985) else self.ch([9, 21, 30]), "ts": None, "async": None, "bopt": None,
                "maxsize": None, "items": items}
+        if self.profile.get("header_extras") and self.p(self.profile["header_extras"]):
+            # optional header fields the server reads but must not act on: Batch Order Option, and an Authentication
+            # that names another user than the certificate does
+            if self.p(0.5):
+                req["border"] = self.p(0.5)
+            if self.p(0.6):
+                req["cred"] = {"u": self.ch(USERS + ["admin", "root", ""]), "p": self.ch([None, "hunter2-" + hexof(8, rnd=self.r)])}
         if self.p(0.06):
             req["ts"] = self.now - self.ch([0, 1, 59, 0, 1, 5, 60, 61, -1, 1000])
         elif self.p(0.02):
